@@ -655,8 +655,17 @@ func (g *GoFakeS3) createObjectBrowserUpload(bucket string, w http.ResponseWrite
 		return ResourceError(ErrKeyTooLong, key)
 	}
 
-	// FIXME: how does Content-MD5 get sent when using the browser? does it?
-	rdr, err := newHashingReader(infile, "")
+	// A browser upload carries its Content-MD5 as a form field.
+	var md5Base64 string
+	if g.integrityCheck {
+		if values, ok := r.MultipartForm.Value["Content-MD5"]; ok && len(values) > 0 {
+			md5Base64 = values[0]
+			if md5Base64 == "" {
+				return ErrInvalidDigest
+			}
+		}
+	}
+	rdr, err := newHashingReader(infile, md5Base64)
 	if err != nil {
 		return err
 	}
